@@ -491,15 +491,16 @@ bool encode_array::shift(size_t len)
 {
 	// move data segment to front
 	if (!len) {
+		array::content *c;
 		size_t max, len = _state.done + _state.scratch;
-		if ((max = _d.length() <= len)) {
+		if (!(c = const_cast<array::content *>(_d.data()))
+		    || c->shared()
+		    || (max = c->length()) <= len) {
 			return false;
 		}
-		uint8_t *d = reinterpret_cast<uint8_t *>(_d.base());
-		size_t shift = max - len;
-		memcpy(d, d + shift, len);
-		_d.set(len);
-		return true;
+		uint8_t *d = static_cast<uint8_t *>(c->data());
+		memmove(d, d + (max - len), len);
+		return c->set_length(len);
 	}
 	// consume terminated data
 	if (len > _state.done) {
